@@ -1,12 +1,15 @@
-"""C39 — job lifecycle protocol terminates and never double-runs: SAFETY half + enabledness (partial).
+"""C39 — job lifecycle protocol terminates and never double-runs: SAFETY + LIVENESS AS POSSIBILITY WITH A PROGRESS MEASURE.
 
-Tie: X (shared family correspondence: model step ~ real SQL routines + handlers on minisql, after every op).
-Proof: coq/theories/BatchDB/Attempts.v over the frozen model BatchDB/Model.v.
+Tie: X (shared family correspondence: model step ~ real SQL routines + handlers on minisql, after every op; the corpus
+contains the finishing continuations computed by the Coq function Liveness.finish: corpus/C39/finishing-schedule.json).
+Proof: coq/theories/BatchDB/Attempts.v, AttemptIdle.v (safety), LivenessSteps.v, Liveness.v (liveness) over the frozen model
+BatchDB/Model.v, using the dependency invariant (Deps*.v), the lifecycle theorem (JobChange.v) and the tally invariant (Tally*.v).
 Oracle: harness/batchdb/oracles.py::c39_safety after every op of every history (current attempt exists, Creating/Running
 job has one, Pending/Ready job has none, a message with another attempt id does not move a Creating/Running job, no error
 1242 for always-run jobs) and ::c39_liveness on the driver-in-the-loop histories (a simulated FAIR driver drains every
-history: every job of a committed batch finishes, cancelled batches complete, always-run jobs run) — liveness is TESTED
-there, not proved.
+history: every job of a committed batch finishes, cancelled batches complete, always-run jobs run).  What is PROVED about
+liveness is possibility + progress measure (below); that the real asyncio loops are fair and that workers report is ASSUMED
+and only exercised by that simulated driver.
 """
 from harness.batchdb import family
 
@@ -16,33 +19,57 @@ READY = True
 
 META = dict(
     design_ref='§5.A C39',
-    technique='Coq invariant proof over all histories of an executable model of the batch database + '
-              'correspondence of the model with the real SQL routines/handlers on a MySQL-subset interpreter; '
-              'liveness only tested with a simulated fair driver',
-    level_text='PARTIAL. Machine-checked (Coq 8.16, closed under the global context), for ALL legal histories of the batch-database model '
-               '(any interleaving / duplication / delay of client requests, scheduler, canceller and worker messages, preemptions and '
-               'deactivations): every job has one row and at most one attempt row is its current attempt; the attempt a job names as current '
-               'exists in the attempts table under that job\'s key; a Creating/Running job names one (C39_current_attempt_exists, '
-               'C39_single_current_attempt, inductive: C39_step). From ANY state: a completion / unschedule carrying an attempt id other than the '
-               'job\'s current one changes no job, job-group or batch row and is answered rc 2 / rc 1 (C39_stale_*); a job in a terminal state is '
-               'not moved by any message about it nor by any transaction other than the commit of an update or the completion of another job '
-               '(C39_terminal_row_kept). Enabledness (no fairness): schedule of a Ready non-cancelled job on an active instance succeeds, an '
-               'always-run job is never treated as cancelled and scheduling never answers error 1242 (the repaired defect), a non-stale completion '
-               'of a Ready/Creating/Running job is accepted. NOT proved: termination, "a cancelled batch eventually completes", "always-run jobs '
-               'run to completion" (liveness of the real loops; exercised only by the oracle\'s simulated fair driver), and the two remaining '
-               'paths of terminal-absorption (commit recomputation, child release: C04/C05 invariants). Limit kept visible: the current attempt '
-               'may be an already ended attempt after a verbatim replay of a schedule message (C39_replayed_schedule_reinstalls_ended_attempt; '
-               'same on the real SQL; the real driver never replays).',
-    level_note='Trusted: Coq kernel; the sampled model-vs-implementation correspondence and the minisql engine; Legal.v (only "completions report a '
-               'terminal state" is used by the invariant). The driver loops themselves (pool.py / canceller.py / job_private.py scheduling '
-               'decisions, asyncio interleavings, HTTP delivery) are not modelled: each of their DB transactions is one op of the model and the '
-               'theorems hold for every order of ops. An attempt-less completion (attempt id NULL, sent by the canceller for Ready jobs) is not '
-               'a "stale attempt": it completes a job whatever its current attempt is, in the model and in mark_job_complete alike.',
+    technique='Coq invariant proofs over all histories of an executable model of the batch database (safety), plus a constructive '
+              'progress proof: a measure on states, a driver function producing the next scheduler / canceller / worker / autoscaler '
+              'message, "every such message is a good step and decreases the measure", and the computed finishing continuation; '
+              'correspondence of the model with the real SQL routines/handlers on a MySQL-subset interpreter; eventuality itself '
+              '(fair loops, reporting workers) tested with a simulated fair driver, not proved',
+    level_text='PARTIAL (liveness is proved as possibility + progress measure, not as eventuality of the real loops). Machine-checked '
+               '(Coq 8.16, closed under the global context). SAFETY, for ALL legal histories of the batch-database model (any interleaving / '
+               'duplication / delay of client requests, scheduler, canceller and worker messages, preemptions and deactivations): every job has '
+               'one row and at most one attempt row is its current attempt; the attempt a job names as current exists under that job\'s key; a '
+               'Creating/Running job names one (C39_current_attempt_exists, C39_single_current_attempt, inductive: C39_step); for ALL good histories '
+               '(legal + schema-valid client requests) a Pending or Ready job names NO attempt (C39_waiting_job_has_no_attempt) and terminal states '
+               'are absorbing along every continuation, including commits of later updates and completions of other jobs (C39_terminal_absorbing). '
+               'From ANY state: a completion / unschedule carrying an attempt id other than the job\'s current one changes no job, job-group or batch '
+               'row and is answered rc 2 / rc 1 (C39_stale_*); late start messages do not move a job; scheduling never answers error 1242 (the repaired '
+               'defect). LIVENESS, for every state reachable by a good history: (no deadlock, C39_no_deadlock) while a job of a committed update is '
+               'unfinished, one of them is Ready, Creating or Running; (progress, C39_progress_step / C39_driver_step_progress / C39_drive_progress) for '
+               'ANY such job the next message of the real loops for it — scheduler: schedule_job with a fresh attempt on an active instance; canceller: '
+               'attempt-less Cancelled completion of a cancelled Ready job; worker: completion of the current attempt with an arbitrary reported terminal '
+               'state — is a legal step and strictly decreases the measure mu = sum over committed jobs of (Pending 4, Ready 3, Creating 2, Running 1, '
+               'terminal 0); (a finishing schedule always exists, C39_can_always_finish) the computed continuation finish w s, at most 2 + mu(s) messages '
+               '(autoscaler new_instance + activate_instance if no instance is active, then the driver iterated), is a good history extension after which '
+               'every job of every committed update is terminal and every batch and job group, cancelled or not, is complete (tally invariant), for every '
+               'outcome function w of the workers; (always_run, C39_always_run_jobs_run) in that continuation an always_run job that was Pending or Ready '
+               'ends in the state its worker reported with a non-NULL attempt whose row exists, whatever cancellation marks its batch/groups carry and '
+               'however its parents ended. Non-vacuity: C39_finish_demo (cancelled batch with Running parent, Pending child, Pending always_run '
+               'grandchild; the computed continuation is replayed on the real SQL by the correspondence, corpus/C39/finishing-schedule.json). NOT proved: '
+               'that the real scheduler / canceller / autoscaler loops are fair, that workers report back and that messages are delivered — these are the '
+               'hypotheses that turn "can always finish, and every driver step makes progress" into "eventually finishes"; preemptions, deactivations and '
+               'the canceller\'s unschedule are legal steps that RAISE the measure (Running -> Ready), so with infinitely many of them nothing is promised. '
+               'The scheduler\'s own choice among Ready jobs (fair share, free cores) is not modelled: the theorem holds for ANY choice. Limit kept '
+               'visible: the current attempt of a Running job may be an already ended attempt after a verbatim replay of a schedule message '
+               '(C39_replayed_schedule_reinstalls_ended_attempt; same on the real SQL; the real driver never replays).',
+    level_note='Trusted: Coq kernel; the sampled model-vs-implementation correspondence and the minisql engine; Legal.v + DepsDef.client_ok (the '
+               'environment assumptions of good histories). The driver loops themselves (pool.py / canceller.py / job_private.py scheduling '
+               'decisions, asyncio interleavings, HTTP delivery) are not modelled: each of their DB transactions is one op of the model; the safety '
+               'theorems hold for every order of ops, the liveness theorems construct one order. The driver function of the proof (Liveness.op_for) '
+               'mirrors job.py::schedule_job, canceller.py::cancel_cancelled_ready_jobs_loop_body -> job.py::mark_job_complete (attempt, instance, '
+               'start and end time NULL), main.py::job_complete -> job.py::mark_job_complete, instance_collection/pool.py::create_instances + '
+               'activate_instance; the fresh attempt id stands for the random token the driver draws. The model does not check free cores when '
+               'scheduling (neither does the stored procedure; the Python scheduler does), so the constructed continuation may overcommit an instance '
+               'in the model (it schedules and then immediately completes one job at a time, taking the first movable row of the table, so it never holds '
+               'more than one attempt of its own open; free-core accounting itself is C10). An '
+               'attempt-less completion (attempt id NULL, sent by the canceller for Ready jobs) is not a "stale attempt": it completes a job whatever '
+               'its current attempt is, in the model and in mark_job_complete alike.',
     partial=True,
 )
 TRUSTED = family.COMMON_TRUSTED + []
 ASSUMPTIONS = family.COMMON_ASSUMPTIONS + [
-    'liveness needs fairness of the scheduler / canceller / worker loops and delivery of their messages: assumed, not proved (partial)',
+    'eventual completion needs fairness of the scheduler / canceller / autoscaler loops, workers that report the end of their attempts and '
+    'delivery of their messages: assumed, not proved; proved is that under these messages progress is always possible and measured '
+    '(C39_no_deadlock, C39_progress_step, C39_can_always_finish)',
 ]
 
 correspond = family.correspond
